@@ -207,7 +207,11 @@ func (x *Exec) instr(st *State, fr *Frame, b *ssa.BasicBlock, i int, in ssa.Inst
 		p := st.newCell(elem, v.Comment)
 		fr.regs[v] = p
 		if v.Comment != "" {
-			fr.named[v.Comment] = p.Cell
+			// a parameter or named result keeps its name for the whole function: a variable that shadows it in an
+			// inner scope must not silently take over what a contract means by that name
+			if _, bound := fr.named[v.Comment]; !(bound && isParamOrResultName(fr.fn, v.Comment)) {
+				fr.named[v.Comment] = p.Cell
+			}
 			fr.allNamed[v.Comment] = append(fr.allNamed[v.Comment], p.Cell)
 		}
 		return false
@@ -1606,4 +1610,19 @@ func mergeVal(c Term, a, b Val) (Val, bool) {
 		return a, true
 	}
 	return nil, false
+}
+
+func isParamOrResultName(fn *ssa.Function, name string) bool {
+	for _, p := range fn.Params {
+		if p.Name() == name {
+			return true
+		}
+	}
+	rs := fn.Signature.Results()
+	for i := 0; i < rs.Len(); i++ {
+		if rs.At(i).Name() == name {
+			return true
+		}
+	}
+	return false
 }
